@@ -13,5 +13,6 @@ var Scenarios = map[string]func() *Scenario{
 	"C10": C10Scenario,
 	"C11": C11Scenario,
 	"C12": C12Scenario,
+	"C13": C13Scenario,
 	"C16": C16Scenario,
 }
